@@ -41,7 +41,7 @@ type Value struct {
 	Str       *string // used by ValueStr and ValueRegex
 	Num       *float64
 	Bool      *bool
-	Array     []*Cell
+	Array     *[]*Cell // shared by every reference to the same array, like Obj
 	Obj       *map[string]*Cell
 	NativeFn  func(*Evaluator, []*Value, *Value) (*Value, error)
 	Fn        *ExprFunction
@@ -55,7 +55,7 @@ func NewValue(srcVal interface{}) Value {
 	case []*Cell:
 		return Value{
 			Tag:   ValueArray,
-			Array: val,
+			Array: &val,
 			Proto: getArrayPrototype(),
 		}
 	case []interface{}:
@@ -65,7 +65,7 @@ func NewValue(srcVal interface{}) Value {
 		}
 		return Value{
 			Tag:   ValueArray,
-			Array: arr,
+			Array: &arr,
 			Proto: getArrayPrototype(),
 		}
 	case []string:
@@ -75,7 +75,7 @@ func NewValue(srcVal interface{}) Value {
 		}
 		return Value{
 			Tag:   ValueArray,
-			Array: arr,
+			Array: &arr,
 			Proto: getArrayPrototype(),
 		}
 	case map[string]interface{}:
@@ -128,7 +128,7 @@ func NewArray() Value {
 	arr := make([]*Cell, 0)
 	return Value{
 		Tag:   ValueArray,
-		Array: arr,
+		Array: &arr,
 		Proto: getArrayPrototype(),
 	}
 }
@@ -179,13 +179,6 @@ func (v *Value) PrettyString(quote bool) string {
 	return v.prettyStringInteral(rootValues, quote, false)
 }
 
-// check if two value slices have the same underlying array
-// borrowed from go's math library
-// https://go.dev/src/math/big/nat.go#L374
-func alias(x, y []*Cell) bool {
-	return cap(x) > 0 && cap(y) > 0 && &x[0:cap(x)][cap(x)-1] == &y[0:cap(y)][cap(y)-1]
-}
-
 func isSame(a *Value, b *Value) bool {
 	if a.Tag != b.Tag {
 		return false
@@ -194,7 +187,7 @@ func isSame(a *Value, b *Value) bool {
 		return a.Obj == b.Obj
 	}
 	if a.Tag == ValueArray && b.Tag == ValueArray {
-		return alias(a.Array, b.Array)
+		return a.Array == b.Array
 	}
 	return false
 }
@@ -226,7 +219,7 @@ func (v *Value) prettyStringInteral(rootValues []*Value, quote bool, checkCircul
 	case ValueArray:
 		var sb strings.Builder
 		sb.WriteByte('[')
-		for index, cell := range v.Array {
+		for index, cell := range *v.Array {
 			if index > 0 {
 				sb.WriteString(", ")
 			}
@@ -262,38 +255,16 @@ func (v *Value) GetMember(member Value) (*Cell, error) {
 		if member.Tag != ValueNum && v.Proto != nil {
 			return v.Proto.GetMember(member)
 		}
-		index := int(*member.Num)
-		arr := v.Array
-
-		if index < 0 {
-			index = len(arr) + index
-			if index < 0 {
-				// walked backwards off the front of the array
-				return nil, fmt.Errorf("index out of range")
-			}
+		index, err := v.arrayIndex(member)
+		if err != nil {
+			return nil, err
 		}
+		arr := *v.Array
 
 		if index >= len(arr) {
-			// TODO sparse arrays
-			// don't fill up to enormous numbers, just bail
-			if index > 1024*1024 {
-				return nil, fmt.Errorf("index too large to auto-fill array")
-			}
-
-			// fill the array with empty cells up to the index
-			var lastCell *Cell
-			for i := len(arr); i <= index; i++ {
-				lastCell = NewCell(NewValue(nil))
-				arr = append(arr, lastCell)
-			}
-			v.Array = arr
-
-			// make the last cell a spec object
-			lastCell.Value.ParentObj = v
-			fIndex := float64(index)
-			lastCell.Value.Num = &fIndex
-
-			return lastCell, nil
+			// reading past the end doesn't change the array. the caller makes a
+			// speculative cell, and the array grows if that cell is assigned to
+			return nil, nil
 		}
 		return arr[index], nil
 	case ValueObj:
@@ -326,6 +297,19 @@ func (v *Value) GetMember(member Value) (*Cell, error) {
 	}
 }
 
+// resolve an array index, counting negative indices from the end
+func (v *Value) arrayIndex(member Value) (int, error) {
+	index := int(*member.Num)
+	if index < 0 {
+		index = len(*v.Array) + index
+		if index < 0 {
+			// walked backwards off the front of the array
+			return 0, fmt.Errorf("index out of range")
+		}
+	}
+	return index, nil
+}
+
 func (v *Value) SetMember(member Value, cell *Cell) (*Cell, error) {
 	switch v.Tag {
 	case ValueArray:
@@ -333,10 +317,23 @@ func (v *Value) SetMember(member Value, cell *Cell) (*Cell, error) {
 			return nil, fmt.Errorf("array indices must be numbers")
 		}
 
-		item, err := v.GetMember(member)
+		index, err := v.arrayIndex(member)
 		if err != nil {
 			return nil, err
 		}
+
+		// TODO sparse arrays
+		// don't fill up to enormous numbers, just bail
+		if index >= len(*v.Array) && index > 1024*1024 {
+			return nil, fmt.Errorf("index too large to auto-fill array")
+		}
+
+		// fill the array with empty cells up to the index
+		for i := len(*v.Array); i <= index; i++ {
+			*v.Array = append(*v.Array, NewCell(NewValue(nil)))
+		}
+
+		item := (*v.Array)[index]
 		item.Value = cell.Value
 		return item, nil
 	case ValueObj:
@@ -450,7 +447,7 @@ func (v *Value) toGoValueInterval(rootValues []*Value, checkCircularReference bo
 		return *v.Num, nil
 	case ValueArray:
 		var array []interface{}
-		for _, item := range v.Array {
+		for _, item := range *v.Array {
 			val, err := item.Value.toGoValueInterval(append(rootValues, v), true)
 			if err != nil {
 				return nil, err
